@@ -194,8 +194,14 @@ def install_nested(md, where):
         md.add_render_rule(key, rr)
 
 
+def _plain_hl(content, lang, attrs):
+    return f"<pre class=hl>{lang}|{attrs}|{len(content)}</pre>" if lang else ""
+
+
 def build_shared(rec):
     md = docgen.build(rec["cfg"])
+    if rec.get("hl"):
+        md.options["highlight"] = _plain_hl
     if rec.get("nested"):
         install_nested(md, rec["nested"]["where"])
     st = rec["start"]
@@ -338,7 +344,14 @@ def gen(rng: random.Random, tier: str) -> dict:
         for calls in threads:
             for call in calls:
                 _aged_fragments(rng, call)
-    rec = {"cfg": cfg, "start": start, "threads": threads, "nested": None,
+    hl = rng.random() < 0.12
+    if hl:
+        for calls in threads:
+            for call in calls:
+                if "Inline" not in call[0] and rng.random() < 0.75:
+                    call[0] = "render"
+                    call[1] += rng.choice(["\n```py a=1\ncode\n```\n", "\n~~~js\nx\n~~~\n", "\n> ```c\n> q\n> ```\n"])
+    rec = {"cfg": cfg, "start": start, "threads": threads, "nested": None, "hl": hl,
            "gran": "INSTRUCTION" if instr else "LINE", "switches": [], "sched": "none",
            "cold_text_cache": rng.random() < 0.15}
     if nt == 1 or rng.random() < 0.4:
@@ -922,6 +935,8 @@ class C13(Engine):
             yield {**rec, "start": ["aged", rec["start"][1] - 1]}
         if rec.get("cold_text_cache"):
             yield {**rec, "cold_text_cache": False}
+        if rec.get("hl"):
+            yield {**rec, "hl": False}
         # simpler documents: step indices shift, so re-sweep a single remaining switch over the new step range
         for t, calls in enumerate(rec["threads"]):
             for c, (m, d, ek) in enumerate(calls):
